@@ -14,7 +14,8 @@ import (
 // between two frame writes or between a frame read and the next select.
 
 type gate struct {
-	at      string // point the goroutine is parked at ("" = not parked)
+	at      string // point the last goroutine parked at
+	parked  int    // goroutines of the class held at the gate
 	release chan struct{}
 }
 
@@ -36,6 +37,8 @@ func gateClass(point string) string {
 		return "cli"
 	case point == "unary.copy":
 		return "cpy"
+	case point == "stream.clone":
+		return "cln"
 	// httpgrpc streams: one class per goroutine of the model
 	case strings.HasPrefix(point, "http.send."):
 		return "snd"
@@ -67,6 +70,7 @@ func init() {
 			gates.g[cl] = g
 		}
 		g.at = point
+		g.parked++
 		gates.mu.Unlock()
 		<-g.release
 	}
@@ -94,11 +98,11 @@ func (s *gateSet) enable(points []string) {
 func (s *gateSet) releaseOne(class string) bool {
 	s.mu.Lock()
 	g := s.g[class]
-	if g == nil || g.at == "" {
+	if g == nil || g.parked == 0 {
 		s.mu.Unlock()
 		return false
 	}
-	g.at = ""
+	g.parked--
 	s.mu.Unlock()
 	g.release <- struct{}{}
 	return true
@@ -110,8 +114,7 @@ func (s *gateSet) disable() {
 	s.on = false
 	var parked []*gate
 	for _, g := range s.g {
-		if g.at != "" {
-			g.at = ""
+		for ; g.parked > 0; g.parked-- {
 			parked = append(parked, g)
 		}
 	}
@@ -130,7 +133,7 @@ func (s *gateSet) anyParked() bool {
 		return false
 	}
 	for _, g := range s.g {
-		if g.at != "" {
+		if g.parked > 0 {
 			return true
 		}
 	}
